@@ -75,9 +75,9 @@ def mk_leaf(name, shape, layout="C"):
 
 
 def run(spec, tier, prop, mg, max_paths=400, max_seconds=120.0, timeout_ms=10000, on_path=None,
-        claim_boundary=True):
+        claim_boundary=True, skip_ties=False):
     res = common.new_result()
-    engine = eng_mod.Engine()
+    engine = eng_mod.Engine(skip_ties=skip_ties)
     engine.reset_fn = lib.reset_state
     env0 = make_env(mg)
     leaves_spec = spec.get("leaves", [])
@@ -186,6 +186,7 @@ def run(spec, tier, prop, mg, max_paths=400, max_seconds=120.0, timeout_ms=10000
     except eng_mod.Unbounded as e:
         res["status"] = common.INCONCLUSIVE
         res["notes"].append("unbounded concretisation: %s" % e)
+    res["ties_skipped"] = engine.ties_skipped
     if res["paths"] == 0:
         res["status"] = common.INCONCLUSIVE
         res["notes"].append("no feasible path")
